@@ -124,7 +124,7 @@ impl Prop for P20 {
             })
             .collect();
         // lines are bytes: also bytes that are not valid UTF-8 (a Latin-1 name, a lone continuation byte)
-        let mut lp: Vec<Vec<u8>> = ["a", "b c", "é", "*", "x y  z", "$(w)", "-n", "", "0", "q", "t ", "u\t"].iter().map(|s| s.as_bytes().to_vec()).collect();
+        let mut lp: Vec<Vec<u8>> = ["a", "b c", "é", "*", "x y  z", "$(w)", "-n", "", "0", "q", "t ", "u\t", "_", "_"].iter().map(|s| s.as_bytes().to_vec()).collect();
         lp.push(the_r.as_bytes().to_vec());
         lp.push(vec![b'c', b'a', b'f', 0xe9]);
         lp.push(vec![0xff, 0xfe]);
